@@ -10,12 +10,6 @@ import LispModel.Proofs.ScanString
 namespace LispModel.Proofs.PrintRead
 open LispModel LispModel.Scan
 
-theorem scan_of_scanTok (F : Nat) (r : List Rune) (ch : Int) (p : PState) (k : Kind) (s : St)
-    (hw : isWhite ch = false) (h59 : ¬ ch = 59) (h : scanTok ch r p = some (k, s)) :
-    scan (F + 1) r ch p = (some (k, consumed ch r s.2.1 s.1), s) := by
-  rw [scan_succ, skipWhite_stop _ _ _ hw]
-  simp only [if_neg h59, h, finTok]
-
 /-- `consumed` when the scanner ends on `next tail q` after the runes `R` -/
 theorem consumed_next' (n : Nat) (R tail : List Rune) (q : PState) :
     consumed (n : Int) (R ++ tail) (next tail q).2.1 (next tail q).1 = n :: R.map (·.ch) :=
